@@ -79,7 +79,9 @@ func c04ChainSub(name, dir string, qn, tn int) *engine.Sub {
 	return &engine.Sub{
 		Name: name,
 		Rule: "every assignment of windows {nbf in -,t1,t3} x {exp in -,t2,t4} to each link, invocation expiry in {-,t2,t4}, probed at 22 instants (1s / 1ns before, on, after every bound; far past/future) through the verif-tagged export of verifyTimeBoundAt; exactly-on-a-bound is don't-care; non-trivial = at least one bound present",
-		Bound: func(t string) string { return fmt.Sprintf("chains of 1..%d links, 9 windows per link, 3 invocation expiries, 22 probe instants", tierN(t, qn, tn)) },
+		Bound: func(t string) string {
+			return fmt.Sprintf("chains of 1..%d links, 9 windows per link, 3 invocation expiries, 22 probe instants", tierN(t, qn, tn))
+		},
 		Setup: func(string) error { chainInit(); return nil },
 		Gen: func(tier string, emit func(any) bool) {
 			for n := 1; n <= tierN(tier, qn, tn); n++ {
@@ -191,11 +193,11 @@ type c04SingleCase struct {
 func c04SingleSub(dir string) *engine.Sub {
 	probes := c04Probes()
 	return &engine.Sub{
-		Name: "single-token-window",
+		Name:   "single-token-window",
 		Repeat: true,
-		Rule: "IsValidAt of every delegation window (9) and invocation expiry (3), constructed and after seal->unseal, at 22 probe instants; strictly inside => valid, strictly outside => invalid, on a bound don't care; non-trivial = at least one bound present",
-		Bound: func(string) string { return "9+3 windows x {constructed, sealed+unsealed} x 22 probes" },
-		Setup: func(string) error { chainInit(); return nil },
+		Rule:   "IsValidAt of every delegation window (9) and invocation expiry (3), constructed and after seal->unseal, at 22 probe instants; strictly inside => valid, strictly outside => invalid, on a bound don't care; non-trivial = at least one bound present",
+		Bound:  func(string) string { return "9+3 windows x {constructed, sealed+unsealed} x 22 probes" },
+		Setup:  func(string) error { chainInit(); return nil },
 		Gen: func(tier string, emit func(any) bool) {
 			for _, sealed := range []bool{false, true} {
 				for w := 0; w < 9; w++ {
@@ -332,7 +334,9 @@ func c04RealSub(name, dir string, qn, tn int) *engine.Sub {
 	return &engine.Sub{
 		Name: name,
 		Rule: "real ExecutionAllowed (wall clock) with every assignment of {no bound, expired 10y ago, active in 10y, [-10y,+10y]} to each link and {none, expired, valid} to the invocation, whose issue time (iat) is absent, now, 20 years ago or in 20 years (it is not a validity bound and must not move the instant of the check); verdict cannot depend on when the check runs; non-trivial = exactly one invalid element or none",
-		Bound: func(t string) string { return fmt.Sprintf("chains of 1..%d links, 4 windows per link, 3 invocation expiry settings x 4 issue times", tierN(t, qn, tn)) },
+		Bound: func(t string) string {
+			return fmt.Sprintf("chains of 1..%d links, 4 windows per link, 3 invocation expiry settings x 4 issue times", tierN(t, qn, tn))
+		},
 		Setup: func(string) error { chainInit(); return nil },
 		Gen: func(tier string, emit func(any) bool) {
 			for n := 1; n <= tierN(tier, qn, tn); n++ {
@@ -442,8 +446,8 @@ type c04EpochCase struct {
 // constructor can produce for a delegation; built with the harness' envelope assembler.
 func c04EpochSub() *engine.Sub {
 	return &engine.Sub{
-		Name: "decoded-bounds-near-epoch",
-		Rule: "well-signed delegations / invocations whose exp (or nbf) is Unix second -1, 0 or 1 (a present bound that happens to equal a zero value), decoded and probed 1 s / 1 ns before, on and after the bound and far away: a present bound is a bound; non-trivial = all",
+		Name:  "decoded-bounds-near-epoch",
+		Rule:  "well-signed delegations / invocations whose exp (or nbf) is Unix second -1, 0 or 1 (a present bound that happens to equal a zero value), decoded and probed 1 s / 1 ns before, on and after the bound and far away: a present bound is a bound; non-trivial = all",
 		Bound: func(string) string { return "{dlg.exp, dlg.nbf, inv.exp} x {-1, 0, 1} x 7 probes" },
 		Gen: func(tier string, emit func(any) bool) {
 			for _, kf := range [][2]string{{"dlg", "exp"}, {"dlg", "nbf"}, {"inv", "exp"}} {
